@@ -1,0 +1,49 @@
+//go:build verif
+
+// Verification hooks (add-only, compiled only with -tags verif). They expose
+// the unexported pieces of the APPX verifier to the out-of-tree correspondence
+// harness in /verif (unit FmtAPPX); no existing behaviour is changed.
+package signappx
+
+import (
+	"archive/zip"
+	"io"
+)
+
+// VerifReadSignature runs readSignature on the AppxSignature.p7x member.
+func VerifReadSignature(zf *zip.File) (*AppxSignature, error) {
+	return readSignature(zf)
+}
+
+// VerifVerifyBlockMap runs verifyBlockMap with the name table Verify builds.
+func VerifVerifyBlockMap(inz *zip.Reader, skipDigests bool) error {
+	files := make(zipFiles, len(inz.File))
+	for _, file := range inz.File {
+		files[file.Name] = file
+	}
+	return verifyBlockMap(inz, files, skipDigests)
+}
+
+// VerifVerifyFile runs verifyFile with the name table Verify builds.
+func VerifVerifyFile(inz *zip.Reader, sig *AppxSignature, tag, name string) error {
+	files := make(zipFiles, len(inz.File))
+	for _, file := range inz.File {
+		files[file.Name] = file
+	}
+	return verifyFile(files, sig, tag, name)
+}
+
+// VerifVerifyMeta runs verifyMeta (AXPC and AXCD recomputed from the file).
+func VerifVerifyMeta(r io.ReaderAt, size int64, sig *AppxSignature, skipDigests bool) error {
+	return verifyMeta(r, size, sig, skipDigests)
+}
+
+// VerifPatchRange returns the byte range of the input that Sign replaces.
+func (i *AppxDigest) VerifPatchRange() (start, length int64) {
+	return i.patchStart, i.patchLen
+}
+
+// VerifAxpcSoFar returns the AXPC digest over what has been hashed so far.
+func (i *AppxDigest) VerifAxpcSoFar() []byte {
+	return i.axpc.Sum(nil)
+}
